@@ -14,14 +14,14 @@ import subprocess
 import time
 from concurrent.futures import ThreadPoolExecutor
 
-from common import (GOENV, HARNESS, Infra, NCPU, REPO, log, marker_json, require_ok, run_tlc, seed)
+from common import (GOENV, Infra, NCPU, REPO, harness_dir, log, marker_json, require_ok, run_tlc, seed)
 import shutil
 
 
 def build_test_binary(scratch, race=False):
     out = scratch.file("harness.test" + ("-race" if race else ""))
     env = dict(os.environ, **GOENV)
-    shutil.copyfile(os.path.join(REPO, "go.sum"), os.path.join(HARNESS, "go.sum"))
+    HARNESS = harness_dir(scratch)
     cmd = ["go1.26.8", "test", "-c", "-tags", "verif"]
     if race:
         cmd.append("-race")
@@ -56,8 +56,13 @@ SEQ_INV = ["TypeOK", "Unique", "InRange", "Conserve", "Bounded", "Ordered", "Exc
 SEQ_PROPS = ["RefuseWhenFull", "AcceptWhenRoom", "UnknownNoEffect", "OnlyTarget", "CompleteOnLast", "TimeoutOnlyAfterSilence"]
 
 
-def seq_consts(N, MaxPending, explicit, MaxReq, MaxFrames, TimeoutQ=2, Timed=True, MaxHist=0, legacy=()):
-    return dict(N=N, MaxPending=MaxPending, ExplicitIds=tla_set(explicit), UnknownId=9, MaxReq=MaxReq, MaxFrames=MaxFrames,
+ALL_ACTS = "MEDURCT"
+
+
+def seq_consts(N, MaxPending, explicit, MaxReq, MaxFrames, TimeoutQ=2, Timed=True, MaxHist=0, legacy=(), acts=ALL_ACTS):
+    if not Timed:
+        acts = acts.replace("T", "")
+    return dict(Acts=tla_set('"%s"' % a for a in acts), N=N, MaxPending=MaxPending, ExplicitIds=tla_set(explicit), UnknownId=9, MaxReq=MaxReq, MaxFrames=MaxFrames,
                 TimeoutQ=TimeoutQ, Timed="TRUE" if Timed else "FALSE", MaxHist=MaxHist,
                 Legacy=tla_set('"%s"' % x for x in legacy))
 
@@ -177,8 +182,12 @@ ATTRIB = {  # (action, why) -> properties whose statement the rejected step cont
 
 
 def attribute(action, why):
+    # a mismatch in the id pool / registration table breaks id management (C09) and, through it, routing (C10):
+    # an id handed out while a request that carries it is unanswered sends the late response to the wrong request
+    if why == "ids" and action in ("D", "T", "C"):
+        return {"C09", "C10"} | ({"C16"} if action in ("T", "C") else set())
     if action == "D":
-        return {"C09"} if why == "ids" else {"C10"}
+        return {"C10"}
     return ATTRIB.get(action, {"C09", "C10", "C16"})
 
 
@@ -220,6 +229,7 @@ def seq_pipeline(scratch, tier, testbin):
         mc = [seq_consts(2, 2, [1, 3], 3, 3)]
         hists = [("h-n2", seq_consts(2, 1, [1, 3], 4, 4, MaxHist=5), None),
                  ("h-n1", seq_consts(1, 2, [1, 2], 4, 4, MaxHist=5), None),
+                 ("h-time", seq_consts(1, 3, [1], 3, 6, TimeoutQ=4, MaxHist=8, acts="MDT"), None),
                  ("sim-n3", seq_consts(3, 2, [2, 5], 8, 12, MaxHist=24), 400)]
     else:
         mc = [seq_consts(2, 2, [1, 3], 3, 3), seq_consts(1, 1, [1, 2], 4, 4), seq_consts(3, 1, [2, 4], 3, 3, Timed=False),
@@ -228,6 +238,8 @@ def seq_pipeline(scratch, tier, testbin):
                  ("h-n2p2", seq_consts(2, 2, [2, 3], 4, 5, MaxHist=5), None),
                  ("h-n1", seq_consts(1, 2, [1, 2], 5, 5, MaxHist=6), None),
                  ("h-n3", seq_consts(3, 1, [2, 4], 4, 4, MaxHist=5), None),
+                 ("h-time", seq_consts(1, 3, [1], 4, 8, TimeoutQ=4, MaxHist=10, acts="MDT"), None),
+                 ("h-time5", seq_consts(2, 2, [1], 3, 6, TimeoutQ=5, MaxHist=9, acts="MDTC"), None),
                  ("sim-n3", seq_consts(3, 2, [2, 5], 10, 20, MaxHist=40), 5000),
                  ("sim-n4", seq_consts(4, 3, [1, 6], 12, 30, TimeoutQ=3, MaxHist=60), 3000)]
     for c in mc:
